@@ -52,6 +52,8 @@ func main() {
 	nw := fs.Int("nw", 1, "")
 	result := fs.String("result", "", "")
 	index := fs.Int("index", 0, "")
+	lo := fs.Int("lo", 0, "")
+	hi := fs.Int("hi", 0, "")
 	verbose := fs.Bool("v", false, "")
 	args := os.Args[2:]
 	var pos []string
@@ -93,7 +95,28 @@ func main() {
 		if len(pos) != 1 {
 			usage()
 		}
+		if rf, _, _ := core.LoadReplay(pos[0]); rf.Tier == "race" {
+			os.Exit(core.RaceReplay(pos[0], self, *verif))
+		}
 		os.Exit(core.ReplayMain(pos[0], *verbose))
+	case "race":
+		if len(pos) != 1 {
+			usage()
+		}
+		n := *count
+		if n == 0 {
+			n = 40
+		}
+		os.Exit(core.RaceMain(pos[0], *seed, n, *workers, *verif, self))
+	case "race-worker":
+		os.Exit(core.RaceWorker(*id, *seed, *lo, *hi, *result))
+	case "race-one":
+		_, e, sc := core.LoadReplay(pos[0])
+		out := core.SafeRun(e, sc, false)
+		if out.Fail != nil {
+			fmt.Printf("RACE-LAYER-FAIL oracle=%s detail=%s\n", out.Fail.Oracle, out.Fail.Detail)
+			os.Exit(1)
+		}
 	case "gen":
 		e := core.Lookup(pos[0])
 		if e == nil {
